@@ -159,6 +159,31 @@ def run(ctx):
                     if not bad:
                         dirv = dv
                         break
+                if bad and mv.group(1) == 'to':
+                    # look_to documents dir (and up) as unit vectors: a body that re-normalises an intermediate which is already unit under that
+                    # precondition (u = normalize(s x f)) is the same map.  Compare modulo |dir|^2 = 1
+                    from post import unit_relation, doc_unit_args
+                    from runner import REPO
+                    ua = doc_unit_args(REPO, it)
+                    di = 1 if has_eye else 0
+                    if di in ua:
+                        alg2 = nf.Algebra()
+                        alg2.budget = 400000
+                        S2 = Spec(alg2)
+                        unit_relation(alg2, ArgView(F, r, di, argtys[di]).lanes[:3])
+                        try:
+                            ent2 = {k: alg2.nf(v) for k, v in M.entries(r.ret, rty).items()}
+                            d2 = [alg2.nf(a) for a in ArgView(F, r, di, argtys[di]).lanes[:3]]
+                            up2 = [alg2.nf(a) for a in ArgView(F, r, di + 1, argtys[di + 1]).lanes[:3]]
+                            f2_ = d2 if mv.group(2) == 'rh' else [S2.neg(x) for x in d2]
+                            cr2 = S2.cross(f2_, up2)
+                            ks2 = S2.div(S2.c(1), alg2.sqrt_r(S2.dot(cr2, cr2)))
+                            s2 = [S2.mul(x, ks2) for x in cr2]
+                            rows2 = [s2, S2.cross(s2, f2_), [S2.neg(x) for x in f2_]]
+                            if all(alg2.reduce(alg2.r_add(ent2[(c, rr)], alg2.r_neg(rows2[rr][c]))[0]).is_zero() for rr in range(3) for c in range(3)):
+                                bad = None
+                        except ValueError:
+                            pass
                 has_eye = has_eye and mi['cols'] == 4
                 if not bad and has_eye:
                     tcol = mi['cols'] - 1
